@@ -40,6 +40,7 @@ def run(ctx):
     ctx.guard(authoritative)
     ctx.guard(swizzle_active)
     ctx.guard(pair_shape_order)
+    ctx.guard(leaf_default_condition)
 
 
 def _walk(stmts):
@@ -586,3 +587,31 @@ def pair_shape_order(ctx):
                     "coordinates lie outside the reported shape when three or "
                     "more ranks are flattened" % (text(st), text(it)),
                     text_="pair shape fold")
+
+
+# -- R1: the leaf default handed to a constructor is installed -------------------
+
+def leaf_default_condition(ctx):
+    """Tensor.setRankInfo installs the caller's leaf default on the last rank.
+    The only admissible reason to skip that is that the default equals the
+    built-in default 0 (`default != 0`); a truthiness test also skips None,
+    '', () and other falsy defaults, which then silently become 0."""
+    f = ctx.method("Tensor", "setRankInfo")
+    dp = "default"
+    ctx.require(dp in f.all_param_names(), "C14.R1: setRankInfo lost its default parameter")
+    sets = [c for c in pat.calls(f, attr="setDefault")
+            if c.args and text(c.args[0]) == dp]
+    ctx.require(sets, "C14.R1: setRankInfo no longer installs the leaf default")
+    for c in sets:
+        gs = {pat.catom(ctx, f, t, pol, False)
+              for t, pol in atomic_guards(enclosing_stmt(c), asserts=False)}
+        if gs <= {pat.A("!=", dp, "0")}:
+            ctx.ok("C14.R1", f, c, "leaf default installed unless it equals the "
+                   "built-in default 0", text_="setRankInfo leaf default")
+        else:
+            ctx.bad("C14.R1", f, c, "the caller's leaf default is installed only "
+                    "when %s: a default that fails this test without being 0 "
+                    "(None, '', ()) is silently replaced by 0, so the tensor "
+                    "does not report the default it was built with"
+                    % sorted(map(str, gs - {pat.A("!=", dp, "0")})),
+                    text_="setRankInfo leaf default")
